@@ -79,10 +79,49 @@ def _gen_script(rng, res):
   return {'res': res, 'ops': ops}
 
 
+def _gen_bulk(rng, res):
+  """Many timers, most of them cancelled (incl. the head the worker is sleeping on), the rest
+  must still run once, on time and in order (thresholds / compaction / long queues)."""
+  ops = []
+  t = T0
+  n = rng.choice([70, 130, 200])
+  step = 250 if res >= 250 else 7
+  ids = list(range(1, n + 1))
+  for i in ids:
+    T = t + step * rng.randint(1, 40) + (0 if res != 10 else rng.choice([1, 3]))
+    if res == 10 and T % 10 == 0:
+      T += 1
+    ops.append(['S', i, T])
+    if rng.random() < 0.1:
+      ops.append(['step', rng.randint(1, 3)])
+  ops.append(['q'])
+  victims = rng.sample(ids, int(n * rng.choice([0.55, 0.8, 0.97])))
+  rng.shuffle(victims)
+  for k, i in enumerate(victims):
+    ops.append(['C', i])
+    if rng.random() < 0.05:
+      ops.append(['step', rng.randint(1, 2)])
+    if rng.random() < 0.03:
+      t += step
+      ops.append(['adv', t])
+  nid = n
+  for _ in range(rng.randint(0, 4)):
+    nid += 1
+    ops.append(['S', nid, t + step * rng.randint(0, 6) + 1])
+  for _ in range(rng.randint(2, 6)):
+    t += step * rng.randint(1, 12)
+    ops.append(['adv', t])
+  t += step * 50 + 5000
+  ops.append(['adv', t])
+  return {'res': res, 'ops': ops}
+
+
 def cases(prop, tier, seed):
   rng = random.Random(1000003 * int(seed) + 10)
   n = 1500 if tier == 'quick' else 30000
   out = []
+  for i in range(40 if tier == 'quick' else 600):
+    out.append(_gen_bulk(rng, [10, 0, 250][i % 3]))
   for i in range(n):
     res = [10, 10, 0, 250, 1000][i % 5]
     out.append(_gen_script(rng, res))
